@@ -548,6 +548,198 @@ def render_images(case):
     return obs
 
 
+# ------------------------------------------------------------------ XObject stream: mode x orientation x options
+
+def make_mode_image(spec):
+    """spec: fmt png|jpeg|mpo, mode (1 L LA RGB RGBA P CMYK I;16), w, h, seed, trns, app14 (CMYK jpeg), exif (None|1..8),
+    progressive.  JPEG-family images are made of four constant quadrants (qw x qh each), PNG pixels are random.
+    -> (bytes, mime)"""
+    import random
+    from PIL import Image
+    rnd = random.Random(spec['seed'])
+    w, h, mode = spec['w'], spec['h'], spec['mode']
+    bands = {'1': 1, 'L': 1, 'LA': 2, 'RGB': 3, 'RGBA': 4, 'P': 1, 'CMYK': 4, 'I;16': 1}[mode]
+    jpeg = spec['fmt'] in ('jpeg', 'mpo')
+    if jpeg:
+        cols = [tuple(rnd.randrange(20, 236) for _ in range(bands)) for _ in range(4)]
+        im = Image.new(mode, (w, h))
+        for k, (qx, qy) in enumerate([(0, 0), (1, 0), (0, 1), (1, 1)]):
+            im.paste(cols[k] if bands > 1 else cols[k][0], (qx * w // 2, qy * h // 2, (qx + 1) * w // 2, (qy + 1) * h // 2))
+    elif mode == '1':
+        im = Image.new('1', (w, h))
+        im.putdata([rnd.choice([0, 255]) for _ in range(w * h)])
+    elif mode == 'P':
+        im = Image.new('P', (w, h))
+        im.putpalette([rnd.randrange(256) for _ in range(768)])
+        im.putdata([rnd.randrange(256) for _ in range(w * h)])
+    elif mode == 'I;16':
+        im = Image.new('I;16', (w, h))
+        im.putdata([rnd.randrange(65536) for _ in range(w * h)])
+    else:
+        im = Image.frombytes(mode, (w, h), bytes(rnd.randrange(256) for _ in range(w * h * bands)))
+    kw = {}
+    if spec.get('exif'):
+        ex = Image.Exif()
+        ex[0x0112] = spec['exif']
+        kw['exif'] = ex
+    buf = io.BytesIO()
+    if spec['fmt'] == 'png':
+        if mode == 'P' and spec.get('trns'):
+            kw['transparency'] = rnd.randrange(256)
+        im.save(buf, 'PNG', **kw)
+        return buf.getvalue(), 'image/png'
+    if spec['fmt'] == 'mpo':
+        im.save(buf, 'MPO', save_all=True, append_images=[im], quality=95, **kw)
+        return buf.getvalue(), 'image/jpeg'
+    im.save(buf, 'JPEG', quality=95, progressive=bool(spec.get('progressive')), **kw)
+    data = buf.getvalue()
+    if mode == 'CMYK' and not spec.get('app14', True):
+        i = data.find(b'\xff\xee')           # drop the Adobe APP14 segment: plain (not inverted) CMYK samples
+        ln = int.from_bytes(data[i + 2:i + 4], 'big')
+        data = data[:i] + data[i + 2 + ln:]
+    return data, 'image/jpeg'
+
+
+def _grid_points(w, h, coarse):
+    """sample points: every pixel, or the four quadrant centres"""
+    if not coarse:
+        return w, h, [(x, y) for y in range(h) for x in range(w)]
+    return 2, 2, [(w // 4 + qx * (w // 2), h // 4 + qy * (h // 2)) for qy in (0, 1) for qx in (0, 1)]
+
+
+def _truth_samples(data, spec, coarse):
+    """the colours the source means, in source orientation: Pillow's decoding (1/P -> RGB, tRNS -> RGBA); for a
+    CMYK JPEG without the Adobe marker the stored samples are the inks (Pillow always assumes them inverted)"""
+    from PIL import Image
+    im = Image.open(io.BytesIO(data))
+    im.load()
+    if 'transparency' in im.info:
+        im = im.convert('RGBA')
+    elif im.mode in ('1', 'P'):
+        im = im.convert('RGB')
+    gw, gh, pts = _grid_points(im.width, im.height, coarse)
+    out = []
+    for x, y in pts:
+        px = im.getpixel((x, y))
+        px = list(px) if isinstance(px, tuple) else [px]
+        if im.mode == 'CMYK' and not spec.get('app14', True):
+            px = [255 - v for v in px]
+        if im.mode.startswith('I;16'):
+            px = [v >> 8 for v in px]                      # the 8 most significant bits
+        out.append(px)
+    return im.mode, [im.width, im.height], [gw, gh], out
+
+
+def _painted_samples(doc, obj, coarse):
+    """the colours a PDF consumer paints: raw samples of the stream, through /Decode, plus the SMask sample"""
+    from PIL import Image
+    d = obj.dict
+    dec = _decode_xobject(doc, obj)
+    w, h = dec['size']
+    decode = d.get('Decode')
+    decode = [float(x) for x in doc.resolve(decode)] if decode is not None else None
+    inverted = bool(decode) and decode[:2] == [1.0, 0.0]
+    if decode is not None and not (inverted and decode == [1.0, 0.0] * (len(decode) // 2)) and \
+            decode != [0.0, 1.0] * (len(decode) // 2):
+        inverted = None
+    gw, gh, pts = _grid_points(w, h, coarse)
+    nch = {'L': 1, 'RGB': 3, 'CMYK': 4}.get(dec['mode'], 0)
+    out = []
+    if dec['filter'] == 'DCTDecode':
+        im = Image.open(io.BytesIO(obj.raw))
+        im.load()
+        for x, y in pts:
+            px = im.getpixel((x, y))
+            px = list(px) if isinstance(px, tuple) else [px]
+            if im.mode == 'CMYK':
+                px = [255 - v for v in px]                 # Pillow un-inverts; the stream holds 255 - v
+            if inverted:
+                px = [255 - v for v in px]
+            out.append(px)
+        nch = len(out[0]) if out else nch
+    else:
+        pix, alpha = dec['pix'], dec['alpha']
+        ok = nch and len(pix) == w * h * nch and (alpha is None or len(alpha) == w * h)
+        for x, y in pts:
+            if not ok:
+                out.append([])
+                continue
+            px = list(pix[(y * w + x) * nch:(y * w + x + 1) * nch])
+            if inverted:
+                px = [255 - v for v in px]
+            if alpha is not None:
+                px.append(alpha[y * w + x])
+            out.append(px)
+    cs = str(doc.resolve(d.get('ColorSpace')))
+    return {'cs': cs, 'decode': decode, 'inverted': inverted, 'smask': d.get('SMask') is not None, 'size': [w, h],
+            'declared': dec['declared'], 'bpc': int(d.get('BitsPerComponent', 0)), 'filter': dec['filter'],
+            'grid': [gw, gh], 'samples': out, 'channels': nch,
+            'qtables': None if dec['filter'] != 'DCTDecode' else
+            {k: list(v) for k, v in Image.open(io.BytesIO(obj.raw)).quantization.items()}}
+
+
+def xobject_probe(case):
+    """case: items [{id, spec, orientation (css value)}], options -> per item the image XObject painted for it"""
+    from weasyprint import HTML
+    from weasyprint.formatting_structure import boxes
+    from PIL import Image
+    import pdfread
+    _patch_draw()
+    blobs = {it['id']: make_mode_image(it['spec']) for it in case['items']}
+
+    def fetcher(url, *a, **k):
+        data, mime = blobs[url.rsplit('/', 1)[-1]]
+        return {'string': data, 'mime_type': mime}
+
+    html = '<style>@page{size:900px 900px;margin:0}body{margin:0}img{display:block}</style>' + ''.join(
+        '<img id="%s" src="%s" style="image-orientation:%s">' % (it['id'], it['id'], it['orientation']) for it in case['items'])
+    opts = dict(case.get('options', {}))
+    doc = HTML(string=html, url_fetcher=fetcher, base_url='http://img.test/').render(**opts)
+    keys = {}
+
+    def walk(b):
+        b = getattr(b, '_box', b)
+        if isinstance(b, boxes.ReplacedBox) and b.element is not None:
+            keys[id(b)] = (b.element.get('id'), b.width, b.height)
+        for c in getattr(b, 'all_children', lambda: ())():
+            walk(c)
+    for page in doc.pages:
+        walk(page._page_box)
+    _TRACE['log'] = []
+    try:
+        pdf = doc.write_pdf(uncompressed_pdf=True, **opts)
+    finally:
+        log, _TRACE['log'] = _TRACE['log'], None
+    d = pdfread.parse(pdf)
+    draws = []
+    for page in d.pages():
+        res = d.resolve(page.get('Resources')) or {}
+        draws += [r for r in _walk_ops(d, pdfread, d.page_content(page), res, (1, 0, 0, 1, 0, 0), [], (1, 0, 0, 1, 0, 0))
+                  if r[0] == 'image']
+    out = {'problems': d.problems[:3], 'items': {}, 'ndraws': len(draws), 'nlog': len(log)}
+    if len(draws) != len(log):
+        return out
+    for (owner, _, _), rec in zip(log, draws):
+        if owner is None or owner[1] not in keys:
+            continue
+        eid, bw, bh = keys[owner[1]]
+        obj = d.objects.get(rec[1])
+        it = next(i for i in case['items'] if i['id'] == eid)
+        data = blobs[eid][0]
+        coarse = it['spec']['fmt'] != 'png'
+        try:
+            painted = _painted_samples(d, obj, coarse)
+        except Exception as exc:   # noqa
+            painted = {'error': '%s: %s' % (type(exc).__name__, exc)}
+        tmode, tsize, tgrid, tsamples = _truth_samples(data, it['spec'], coarse)
+        src_q = None
+        if it['spec']['fmt'] != 'png':
+            src_q = {k: list(v) for k, v in Image.open(io.BytesIO(data)).quantization.items()}
+        out['items'][eid] = {'painted': painted, 'truth': {'mode': tmode, 'size': tsize, 'grid': tgrid, 'samples': tsamples},
+                             'box': [bw, bh], 'same_bytes': getattr(obj, 'raw', None) == data, 'src_qtables': src_q}
+    return out
+
+
 def dispatch(c):
     """one worker pool for all the streams"""
     return globals()[c['fn']](c['case'])
